@@ -184,6 +184,10 @@ theorem parseTail_spec (input expected : List Char) :
           simp at h1; obtain ⟨rfl, rfl⟩ := h1
           have := h2 c (by simp); simp [ha'] at this
 
+/-- A typed level survives buffering: after `to_owned()` it is read back through its Display text. -/
+theorem owned_typed_level_kept (l : Level) : LvlVal.cast (.ownedTyped l) = LvlVal.cast (.typed l) := by
+  cases l <;> decide
+
 /-- Display then parse is the identity on levels. -/
 theorem level_roundtrip (l : Level) : parseLevel l.display = some l := by
   cases l <;> decide
